@@ -17,9 +17,30 @@ type omap struct {
 	idx     map[int][]int
 	symKeys int
 	n       int
+	epoch   int
 }
 
-func newOmap() *omap { return &omap{idx: map[int][]int{}} }
+func (i *interpreter) newOmap() *omap { return &omap{idx: map[int][]int{}, epoch: i.epoch} }
+
+func (m *omap) clone() *omap {
+	c := &omap{entries: append([]omapEntry{}, m.entries...), idx: map[int][]int{}, symKeys: m.symKeys, n: m.n, epoch: m.epoch}
+	for h, l := range m.idx {
+		c.idx[h] = append([]int{}, l...)
+	}
+	return c
+}
+
+// touchMap saves an old map's state before its first mutation in a path.
+func (i *interpreter) touchMap(m *omap) {
+	if !i.logging || m.epoch == i.epoch {
+		return
+	}
+	saved := m.clone()
+	m.epoch = i.epoch
+	i.undoFns = append(i.undoFns, func() {
+		m.entries, m.idx, m.symKeys, m.n, m.epoch = saved.entries, saved.idx, saved.symKeys, saved.n, saved.epoch
+	})
+}
 
 // hasSym reports whether v contains a symbolic scalar or symbolic string byte.
 func hasSym(v value) bool {
@@ -107,6 +128,7 @@ func (i *interpreter) mapFind(m *omap, kt types.Type, k value) int {
 
 func (i *interpreter) mapInsert(m *omap, kt types.Type, k, v value) {
 	k = normKey(k)
+	i.touchMap(m)
 	if ix := i.mapFind(m, kt, k); ix >= 0 {
 		m.entries[ix].val = v
 		return
@@ -126,6 +148,7 @@ func (i *interpreter) mapDelete(m *omap, kt types.Type, k value) {
 	if ix < 0 {
 		return
 	}
+	i.touchMap(m)
 	e := &m.entries[ix]
 	e.dead = true
 	m.n--
